@@ -129,7 +129,7 @@ PROPS = {
         'a table stands as one non-paragraph leaf (its own text comes from the cmark writer, outside); inline mark-up beyond emphasis / plain links, escaping of '
         'special characters in words, front matter and refs_extension are outside; the executor verdict agreed with the real format-twice on all 51,743 quick paths (one-off exhaustive validation), sampled on every run']},
     'C01': {'specs': DOC_ALL + [LIB_META_SPEC, EVENTS_SPEC, TITLES_SPEC, RENDER_SPEC], 'notes': COMMON + [WRITER_NOTE, 'claimed at block level: every block/token of the input appears once, in order, in the same container, same kind']},
-    'C03': {'specs': DOC_ALL + [POSB_SPEC, EVENTS_SPEC], 'notes': COMMON + ['claimed for blocks -> graph -> tree -> projection: every compiler-emitted panic edge / unwrap / expect / explicit panic reachable within the bounds is a violation']},
+    'C03': {'specs': DOC_ALL + [POSB_SPEC, EVENTS_SPEC, RENDER_SPEC, LIB_SPEC], 'notes': COMMON + ['claimed for blocks -> graph -> tree -> projection: every compiler-emitted panic edge / unwrap / expect / explicit panic reachable within the bounds is a violation']},
     'C07': {'specs': DOC_ALL + [RENDER_SPEC, KANI_C07], 'notes': COMMON + [WRITER_NOTE, 'heading levels are symbolic u8 in 1..6; laws: order kept, emitted outline well nested, well-nested input keeps its levels, blocks stay under the nearest preceding heading']},
     'C20': {'specs': DOC_ALL + [LIB_SPEC], 'notes': COMMON + ['representation invariant checked on every arena produced within the bounds (establish step) and after every update_key step of the library harness (preserve step: RI, ids never reused, other notes untouched)']},
 }
